@@ -94,7 +94,7 @@ impl Property for C13 {
                 Act::Deposit { t, v, amount, .. } => Act::Deposit { t: *t, v: *v, amount: *amount, attach: if rc.ok { pulled } else { *amount } },
                 // addresses inside an engine config update name the cw20 twin's contracts: the native twin gets its own
                 // contracts of the same rank (contract addresses differ between the twins)
-                Act::EngineAdmin { sender, msg: eng::ExecuteMsg::UpdateConfig { owner, insurance_fund, fee_pool, initial_margin_ratio, maintenance_margin_ratio, partial_liquidation_ratio, liquidation_fee } }
+                Act::EngineAdmin { sender, msg: eng::ExecuteMsg::UpdateConfig { owner, insurance_fund, fee_pool, initial_margin_ratio, maintenance_margin_ratio, partial_liquidation_ratio, liquidation_fee }, .. }
                     if insurance_fund.is_some() || fee_pool.is_some() =>
                 {
                     let pool_n = fee_pool.as_ref().map(|p| {
@@ -113,6 +113,7 @@ impl Property for C13 {
                             partial_liquidation_ratio: *partial_liquidation_ratio,
                             liquidation_fee: *liquidation_fee,
                         },
+                        attach: 0,
                     }
                 }
                 other => other.clone(),
